@@ -67,6 +67,44 @@ def main(run, args):
                     oj["tree"] = gid + ".tree"
                 g.ops.append(oj)
         scripts.append(g.script())
+    # directed: shrink across a power of two, then regrow leaving an earlier occupied slot blank
+    for i in range(4 if quick else 24):
+        n = rng.choice([6, 7, 10, 11])
+        g = HistGen(rng, n_pool=n + 3, name=f"c08-s{i}")
+        g.start()
+        a = g.round(app=False, n_props=0, by_value_adds=n - 1, by_value_removes=0, path_required=rng.chance(1, 2))
+        order = [g.pool[0]] + a["adds"]            # leaf order
+        cap = 4 if n <= 7 else 8                   # leaves that survive the shrink
+        victims = order[cap:]
+        keep = order[:cap]
+        # remove everybody to the right of the boundary (one or two commits)
+        while victims:
+            batch, victims = victims[:2], victims[2:]
+            c = rng.choice(keep)
+            cid = g.fresh("c")
+            g.ops.append({"op": "opts", "who": c, "encrypt_controls": False, "tree_ext": True})
+            g.ops.append({"op": "commit", "who": c, "id": cid, "remove_names": batch})
+            for m in g.in_group:
+                if m != c:
+                    g.ops.append({"op": "deliver", "to": m, "msg": cid})
+            g.ops.append({"op": "apply", "who": c})
+            for b in batch:
+                g.in_group.remove(b)
+                g.removed.append(b)
+            g.commit_ids.append(cid)
+            g.epoch += 1
+            g.ops.append({"op": "observe", "who": c, "observe": "all"})
+        # regrow by one or two members
+        for r in range(2):
+            g.round(app=False, n_props=0, by_value_adds=1, by_value_removes=0, path_required=rng.chance(1, 2))
+            ms = rng.shuffle(g.in_group)[:2]
+            for m in ms:
+                g.ops.append({"op": "tree_dump", "who": m})
+            w = rng.choice(g.in_group)
+            gid = g.fresh("gi")
+            g.ops.append({"op": "group_info", "who": w, "id": gid, "ext_commit": False, "tree_ext": False})
+            g.ops.append({"op": "obs_join", "who": f"S{r}", "gi": gid, "tree": gid + ".tree"})
+        scripts.append(g.script())
     recs = run_scripts(scripts, timeout=2400)
     failing = []
     tree_cases, hash_cases = [], {}
